@@ -236,7 +236,7 @@ def r2(R, repo):
   if ok:
     inner = augs[0].value.args[0]
     tn = astu.names_stored(loops[0].target)
-    ok = tn <= astu.names_loaded(inner) and len(tn) == 2
+    ok = tn <= astu.names_loaded(inner) and len(tn) in (1, 2)  # hash((key, value)) or hash(item): the whole pair is hashed
   order_dep = [n for n in astu.body_walk(h.node) if isinstance(n, ast.Assign) and isinstance(n.value, ast.Call) and astu.call_name(n.value) == 'hash' and
                any(isinstance(t_, ast.Name) and t_.id in astu.names_loaded(n.value) for t_ in n.targets) and any(n is x for lp_ in loops for x in ast.walk(lp_))]
   seq_hash = [x for x in astu.func_calls(h) if astu.call_name(x) == 'hash' and x.args and any(isinstance(e_, ast.Call) and astu.call_name(e_) in ('tuple', 'list') and e_.args and
